@@ -21,7 +21,7 @@ var c05Opts = bridge.GenOpts{
 	MaxVals:       5,
 	Denoms:        3,
 	Holders:       true,
-	Weights:       map[string]int{"burst": 3, "hostile": 10, "oprice": 3, "oholders": 3, "byz": 3, "sign": 2, "send2": 3, "xwhale": 3},
+	Weights:       map[string]int{"burst": 3, "hostile": 10, "oprice": 3, "oholders": 3, "byz": 3, "sign": 2, "send2": 3, "xwhale": 3, "xdelist": 2},
 }
 
 func TestC05(t *testing.T) {
@@ -37,7 +37,7 @@ func TestC05(t *testing.T) {
 			it.NoHash = true
 			f := it.Run()
 			rec.NonTrivial = it.Stats["op:burst"] > 0 || it.Stats["exec-batch"] > 0 || it.Stats["hostile-event"] > 0
-			labelStats(rec, it, "op:burst", "exec-batch", "handler-panic", "exec-valset", "hostile-event")
+			labelStats(rec, it, "op:burst", "exec-batch", "handler-panic", "exec-valset", "hostile-event", "op:delist")
 			if it.FailedProp() != "" {
 				rec.Label("stopped-by:" + it.FailedKey())
 			}
